@@ -131,8 +131,9 @@ type Case struct {
 	Otlp  []ORes `json:"otlp"`
 	Zip   []JV   `json:"zip"`
 	// rendering knobs (do not reach the model; the model is insensitive to them)
-	Sep       int     `json:"sep"`      // whitespace variant between elements
-	TrailNL   bool    `json:"trail_nl"` // NDJSON: final newline
+	Sep       int     `json:"sep"`             // whitespace variant between elements
+	TrailNL   bool    `json:"trail_nl"`        // NDJSON: final newline
+	Panic     string  `json:"panic,omitempty"` // the insert service panicked / lost rows on what the parser accepted
 	Err       bool    `json:"err"`
 	ErrMsg    string  `json:"errmsg"`
 	Spans     []TRow  `json:"spans"`
@@ -518,7 +519,7 @@ func run(c *Case, silence bool) {
 	default:
 		panic("fmt " + c.Fmt)
 	}
-	c.Err, c.ErrMsg, c.Spans, c.Tags, c.Read, c.ReadAll = false, "", []TRow{}, []ARow{}, []RSpan{}, 0
+	c.Err, c.ErrMsg, c.Spans, c.Tags, c.Read, c.ReadAll, c.Panic = false, "", []TRow{}, []ARow{}, []RSpan{}, 0, ""
 	err, spans, tags := collect(parser(context.Background(), bytes.NewReader(body), nil))
 	c.Responses = len(spans)
 	if err != nil {
@@ -531,7 +532,7 @@ func run(c *Case, silence bool) {
 	for _, s := range spans {
 		cs, n, p := toCols(samplesSvc, s)
 		if p != "" || n != len(s.MTraceId) {
-			c.Err, c.ErrMsg = true, fmt.Sprintf("insert service: %d rows for %d spans %s", n, len(s.MTraceId), p)
+			c.Panic = fmt.Sprintf("traces insert service: %d rows for %d spans; %s", n, len(s.MTraceId), p)
 			continue
 		}
 		for i := 0; i < n; i++ {
@@ -574,7 +575,7 @@ func run(c *Case, silence bool) {
 	for _, t := range tags {
 		cs, n, p := toCols(tagsSvc, t)
 		if p != "" || n != len(t.MKey) {
-			c.Err, c.ErrMsg = true, fmt.Sprintf("tags insert service: %d rows for %d tags %s", n, len(t.MKey), p)
+			c.Panic = fmt.Sprintf("tags insert service: %d rows for %d tags; %s", n, len(t.MKey), p)
 			continue
 		}
 		for i := 0; i < n; i++ {
